@@ -781,6 +781,75 @@ def run_c06_payee_grid(ctx: common.Ctx):
             ctx.case({'head': head, 'history': hist}, nontrivial=True)
 
 
+def run_c06_whole_field(ctx: common.Ctx):
+    """Directed: every view of a repeated field is read first (so that all of them are cached), then the whole
+    field is replaced through its raw property by a free-standing wrapper with other contents (a deep copy of
+    the same field of another model, or a changed deep copy of its own), then one more edit goes through a view;
+    after each step every value-level view must say what the printed text re-parses to."""
+    import copy
+    from autobean_refactor.models import base
+    from autobean_refactor.models.internal import properties as props
+    from autobean_refactor.models.internal.repeated import Repeated
+    n_done = 0
+    for text, ac, lf, f in documents(ctx, ctx.scale(60, 400), auto_claim=True):
+        r = random.Random(ctx.rng.randrange(1 << 30))
+        cands = []
+        for p_, m in treewalk.walk(f):
+            if not isinstance(m, base.RawTreeModel) or isinstance(m, Repeated):
+                continue
+            for name in edits.class_props(type(m)):
+                if not name.startswith('raw_'):
+                    continue
+                try:
+                    w = getattr(m, name)
+                except Exception:
+                    continue
+                if type(w) is props.RepeatedNodeWrapper:
+                    cands.append((p_, m, name))
+        r.shuffle(cands)
+        for p_, m, name in cands[:3]:
+            hist = []
+            value_views(f)                                  # reads (and caches) every view of every model
+            donors = [x for _, x, n2 in cands if n2 == name and x is not m and type(x) is type(m) and len(getattr(x, name))]
+            try:
+                if donors and r.random() < 0.7:
+                    dc = copy.deepcopy(getattr(r.choice(donors), name))
+                    hist.append(f'{p_}.{name} = deepcopy(<same field of another {type(m).__name__}>)')
+                else:
+                    dc = copy.deepcopy(getattr(m, name))
+                    if len(dc):
+                        dc.pop(r.randrange(len(dc)))
+                    hist.append(f'{p_}.{name} = deepcopy({name}) with one element popped')
+                setattr(m, name, dc)
+            except Exception as e:
+                hist[-1] += f' -> {type(e).__name__}'
+                continue
+            for step in range(2):
+                if step == 1:
+                    # one more edit through a value view of the same model
+                    views = [k for k in edits.class_props(type(m)) if not k.startswith(('_', 'raw_'))]
+                    e = edits.random_edit(r, f, focus=m) if hasattr(edits, 'random_edit') else None
+                    if e is None or e.exc is not None:
+                        break
+                    hist.append(repr(e))
+                out = treewalk.text_of(f)
+                g = gen_docs.parse_ok(out, True)
+                w_ = {'text': text, 'lf': lf, 'history': hist, 'printed': out}
+                if g is None:
+                    if 'custom' not in out:
+                        ctx.monitor_failure('C06:printed-text-rejected', f'after {hist} the printed document no longer parses', w_)
+                    break
+                d = diff(value_views(f), value_views(g))
+                if d:
+                    ctx.monitor_failure('C06:custom-values-adjacent-numbers' if "'values'" in d or '.values' in d else
+                                        'C06:value-view-differs-from-text',
+                                        f'after {hist} a value-level view of the model disagrees with the re-parsed text at {d}', w_)
+                    break
+            n_done += 1
+            ctx.case({'whole_field': name, 'history': hist[:3]}, nontrivial=True)
+    ctx.count('whole_field_assignments', n_done)
+
+
 def run_c11_comment_handover(ctx: common.Ctx):
     """Directed: standalone comments handed back and forth between the two adjacent repeated fields of a
     transaction (meta / postings) and of a file, with removals in between - the claimers move zero-width
